@@ -114,3 +114,22 @@ class RepoIndex:
                 return info["attrs"][name]
             todo += [b.split(".")[-1] for b in info["bases"]]
         return None
+
+
+def extract_block(fs, selector, name, params):
+    """Mechanically extract a statement block of a function as a synthetic function (for branch-level contracts).
+
+    `selector(func_ast)` returns the list of statements; the synthetic function has the given parameter names
+    (the free variables of the block). What is dropped: everything of the enclosing function outside the block."""
+    stmts = selector(fs.node)
+    if not stmts:
+        raise KeyError(f"block {name} not found in {fs.qualname}")
+    args = ast.arguments(posonlyargs=[], args=[ast.arg(arg=p) for p in params], kwonlyargs=[], kw_defaults=[], defaults=[])
+    node = (ast.AsyncFunctionDef if fs.is_async else ast.FunctionDef)(name=name.replace("#", "_").replace(".", "_"), args=args, body=list(stmts),
+                                                                      decorator_list=[], lineno=stmts[0].lineno,
+                                                                      end_lineno=stmts[-1].end_lineno, col_offset=0)
+    text = "\n".join(ast.unparse(x) for x in stmts)
+    out = FuncSrc(fs.file, f"{fs.qualname}#{name}", node, text, fs.cls)
+    out.lineno, out.end_lineno = stmts[0].lineno, stmts[-1].end_lineno
+    out.parent = fs
+    return out
